@@ -297,6 +297,23 @@ def g_commute(ctx, rng, i):
     if mode == "int":
         l = g.join(P[0], P[1])
         on = g.Point(2 * P[0].array - 3 * P[1].array)
+        if i % 3 == 0:
+            # history: the same single line and point are first mapped by a collection of transformations (values judged by C04 / C06), then used again
+            try:
+                tcs = g.TransformationCollection(np.stack([c06._rand_matrix(rng, n, j % 4) for j in range(int(rng.integers(1, 4)))]).astype(float))
+                before = t * l
+                tcs * l
+                tcs * P[0]
+                tcs.apply(H[0])
+                after = t * l
+                okh, why = _proj_same(before, after, 1e-9)
+                if okh:
+                    okh = bool(l.contains(P[0])) and bool(after.contains(t * P[0])) and bool(np.all(np.asarray((tcs * l).contains(tcs * P[0]))))
+                    why = "incidence of the line and its point lost"
+            except Exception as e:
+                okh, why = False, f"raised {type(e).__name__}: {e}"
+            ctx.judge("incidence", bool(okh), [t, l, P[0]], what=f"after the line and the point were mapped by a TransformationCollection: {why}", op="history: collection of transformations, then single",
+                      nontrivial=True, feat={"dim": dim, "tkind": "history"})
         for q, tag in ((on, "incident"), (P[2], "non-incident"), (P[0], "incident")):
             same_bool("incidence", f"line.contains({tag})", l.contains(q), (t * l).contains(t * q), [t, l, q])
         same_bool("incidence", "hyperplane.contains", H[0].contains(P[0]), (t * H[0]).contains(t * P[0]), [t, H[0], P[0]])
